@@ -1,8 +1,8 @@
 #!/verif/.venv/bin/python
 # Replay of a solver counterexample against the unmodified code (no shims).
-# property=C19 kernel=mappable label=mappable:index_targets_declared_order
+# property=C19 kernel=order label=k1:every_trap_has_an_id
 import sys
-sys.path[:0] = ["/repo/pulser-core", "/repo/pulser-simulation", "/verif"]
+sys.path[:0] = ['/repo' + "/pulser-core", '/repo' + "/pulser-simulation", "/verif"]
 from symx.replay import replay
-sys.exit(replay(check='checks.c19', kernel='mappable', shape={'ids': ['q0', 'q1', 'q2', 'q3', 'q4', 'q5', 'q6', 'q7', 'q8', 'q9', 'q10', 'q11'], 'chosen': {'q0': 0, 'q1': 1, 'q2': 2, 'q3': 3, 'q4': 4, 'q5': 5, 'q6': 6, 'q7': 7, 'q8': 8, 'q9': 9, 'q10': 10, 'q11': 11}, 'index': 2},
-                assignment={'amp': '1/1024'}, label='mappable:index_targets_declared_order'))
+sys.exit(replay(check='checks.c19', kernel='order', shape={'n': 2, 'dims': 2, 'perm': [1, 0]},
+                assignment={'p0_0': 10, 'p0_1': 15, 'p1_0': 9, 'p1_1': 15}, label='k1:every_trap_has_an_id'))
